@@ -200,12 +200,14 @@ func c15r2(r *R) {
 			}
 		}
 		d := describe(s.call.arg)
-		r.check(okc && strings.Contains(d, s.dur), "readRequest#"+s.name+"-deadline-base", s.call.site.Pos(), "computed from a clock reading taken after the first byte, plus "+s.dur, "the "+s.name+" deadline is "+d+"; it must be counted from a clock reading taken after the first byte of the request arrived, with "+s.dur)
+		dur := s.dur
+		usesDur := strings.Contains(d, dur) || dependsOn(s.call.arg, func(v ssa.Value) bool { return describe(v) == dur })
+		r.check(okc && usesDur, "readRequest#"+s.name+"-deadline-base", s.call.site.Pos(), "computed from a clock reading taken after the first byte, plus "+s.dur, "the "+s.name+" deadline is "+d+"; it must be counted from a clock reading taken after the first byte of the request arrived, with "+s.dur)
 	}
 	d := describe(idle.arg)
-	r.check(strings.Contains(d, "(*martian.Proxy).idleTimeout($0.Proxy)"), "readRequest#idle-duration", idle.site.Pos(), "idle deadline uses idleTimeout()", "idle deadline is "+d)
+	r.check(strings.Contains(d, "(*martian.Proxy).idleTimeout($0.Proxy)") || dependsOn(idle.arg, func(v ssa.Value) bool { return describe(v) == "(*martian.Proxy).idleTimeout($0.Proxy)" }), "readRequest#idle-duration", idle.site.Pos(), "idle deadline uses idleTimeout()", "idle deadline is "+d)
 	// zero deadline when the timeout is not positive
-	for _, s := range []struct {
+	for idx, s := range []struct {
 		call deadline
 		cond string
 	}{{idle, "((*martian.Proxy).idleTimeout($0.Proxy) > 0)"}, {hdr, "((*martian.Proxy).readHeaderTimeout($0.Proxy) > 0)"}} {
@@ -219,6 +221,10 @@ func c15r2(r *R) {
 				pred := phi.Block().Preds[i]
 				good = guardedBy(pred, eq(s.cond))
 			}
+		}
+		if !ok && !strings.Contains(describe(s.call.arg), "phi(") {
+			// the deadline does not merge right here (it comes out of a helper or a struct): decide it on the paths
+			good = zeroWhenOffOnPaths(rr, s.cond, idx)
 		}
 		r.check(good || !ok && strings.Contains(describe(s.call.arg), "phi("), "readRequest#zero-when-off("+s.cond+")", s.call.site.Pos(), "a non-positive timeout means no deadline", "deadline armed although the timeout is not positive")
 	}
@@ -411,4 +417,29 @@ func c15r5(r *R) {
 	if set != nil && firstWrite != nil {
 		r.check(deferred && !reaches(firstWrite, set), "writeResponse#arm-write-clear", set.Pos(), "armed before the first write, cleared by a deferred call", "the write deadline is armed after a write or is not cleared on exit")
 	}
+}
+
+// zeroWhenOffOnPaths: on every path of readRequest the idx-th read deadline that is set is computed from
+// the clock exactly when cond holds (a non-positive timeout leaves the zero time, i.e. no deadline).
+func zeroWhenOffOnPaths(rr *ssa.Function, cond string, idx int) bool {
+	ps, _ := enumPaths(rr, 20000, 1)
+	n := 0
+	for _, p := range ps {
+		var args []string
+		for _, e := range p.Events {
+			if e.Kind == "call" && strings.HasPrefix(e.Desc, "invoke net.Conn.SetReadDeadline(") {
+				i := strings.Index(e.Desc, ", ")
+				args = append(args, strings.TrimSuffix(e.Desc[i+2:], ")"))
+			}
+		}
+		if idx >= len(args) {
+			continue
+		}
+		n++
+		fromClock := strings.Contains(args[idx], "time.Now()")
+		if fromClock != p.holds(cond) {
+			return false
+		}
+	}
+	return n > 0
 }
